@@ -36,7 +36,8 @@ CONFIG = {
                    'thorough) in each of the four languages -- from raw '
                    'leaves and from children of every other language -- is '
                    'judged: success only for trees of the target logic, '
-                   'TypeError otherwise.'),
+                   'TypeError otherwise.'
+                   ' Also (round 6): quantified/temporal cores hidden in tautological or absorbing contexts, offered to all three checkers.'),
     'level_note': ('Trusted base: vmon/reflang.py (documented definitions of '
                    'PL, CTL, LTL, CTL*). Rejecting an in-logic tree is not a '
                    'violation of this property (counted as a diagnostic). '
